@@ -39,7 +39,10 @@ MANIFEST = {
             'written between own KEXINIT and own NEWKEYS is key-exchange or transport control (only_kex_between — '
             'also when the time limit passes between the two clock readings of one send_packet call, the nested '
             'send_packet(MSG_IGNORE) being modelled as the re-entrant call it is; pre-repair witness '
-            'prefix_emits_data_during_exchange = defect F58); '
+            'prefix_emits_data_during_exchange = defect F58); once NEWKEYS is sent everything held back goes out, '
+            'whatever limit ran out while the exchange was running (newkeys_flush_sends_everything, tied to the '
+            'timer restart in send_newkeys by limits_restart_at_newkeys; pre-repair witness '
+            'newkeys_flush_prefix_witness = defect F145); '
             'application packets on the wire followed by those held back equal the submissions in order, so '
             'nothing is lost, duplicated or reordered (deferred_fifo); every packet is sealed under the epoch '
             'begun by the last NEWKEYS before it (keys_fresh); the session id never changes (session_id_constant). '
@@ -116,6 +119,26 @@ def translate(ctx: Ctx) -> Dict[str, Any]:
     out += '/-- `send_packet`: after the nested `send_packet(MSG_IGNORE)` the packet is deferred if that call started a\n'
     out += '    key exchange (`if not self._kex_complete: self._deferred_packets.append(...); return`) -/\n'
     out += f'def recheckAfterIgnore : Bool := {"true" if recheck else "false"}\n\n'
+    # send_newkeys: is the rekey timer restarted at the point the new keys are taken into use, before the deferred
+    # packets are flushed?  (repair of F145: a time limit reached during the exchange started the next one; the byte
+    # count cannot grow during an exchange: send_packet adds to it only `if self._kex_complete`)
+    g = T.find_def(tree, 'SSHConnection.send_newkeys')
+    flush = next((i for i, b in enumerate(g.body) if isinstance(b, ast.Expr) and
+                  ast.unparse(b) == 'self._send_deferred_packets()'), None)
+    done = next((i for i, b in enumerate(g.body) if ast.unparse(b) == 'self._kex_complete = True'), None)
+    if flush is None or done is None or not done < flush:
+        raise T.Untranslatable('send_newkeys: `_kex_complete = True` / `_send_deferred_packets()` not found in order')
+    between = g.body[done + 1:flush]
+    time_reset = any(isinstance(b, ast.If) and ast.unparse(b.test) == 'self._rekey_seconds' and not b.orelse and
+                     [ast.unparse(c) for c in b.body] ==
+                     ['self._rekey_time = time.monotonic() + self._rekey_seconds'] for b in between)
+    counted = any(isinstance(b, ast.If) and ast.unparse(b.test) == 'self._kex_complete' and not b.orelse and
+                  [ast.unparse(c) for c in b.body] == ['self._rekey_bytes_sent += pktlen'] for b in f.body)
+    sites = [n for n in ast.walk(T.find_def(tree, 'SSHConnection')) if isinstance(n, ast.AugAssign) and
+             ast.unparse(n.target) == 'self._rekey_bytes_sent']
+    out += '/-- `send_newkeys`: the rekey timer is restarted after `_kex_complete = True` and before\n'
+    out += '    `_send_deferred_packets()`; and the byte count grows only in `send_packet` under `if self._kex_complete` -/\n'
+    out += f'def restartLimitsAtNewkeys : Bool := {"true" if time_reset and counted and len(sites) == 1 else "false"}\n\n'
     out += 'end AsyncsshModel.Gen.C11\n'
     changed = vlib.write_if_changed(vlib.module_path('AsyncsshModel.Gen.C11'), out)
     return {'gen_file': 'Gen/C11.lean', 'changed': changed}
@@ -192,8 +215,10 @@ async def scripted(events: List[str], seed: int) -> Dict[str, Any]:
         nw = {d: len(hub.writes[d]) for d in (pair.C2S, pair.S2C)}
         nd = dict(nw)
         base_c, base_s = len(tap.sent.get(id(c), [])), len(tap.sent.get(id(s), []))
+        marks: List[Tuple[int, int]] = []       # packets each end had written when the event began
         try:
             for ev in events:
+                marks.append((len(tap.sent.get(id(c), [])) - base_c, len(tap.sent.get(id(s), [])) - base_s))
                 parts = ev.split(':')
                 if parts[0] in ('sc', 'ss'):
                     conn, ch = (c, chan) if parts[0] == 'sc' else (s, schan)
@@ -224,6 +249,7 @@ async def scripted(events: List[str], seed: int) -> Dict[str, Any]:
                        f'c_del={",".join(map(str, c_sink)) or "-"} s_del={",".join(map(str, s_sink)) or "-"} '
                        f'failed={int(c.is_closed())}{int(s.is_closed())}')
         out['c_types'], out['s_types'] = ctypes, stypes
+        out['marks'] = marks
         out['rekeys'] = (len(kt.keys.get(id(c), [])), len(kt.keys.get(id(s), [])))
         out['drained'] = all(nd[d] >= len(hub.writes[d]) for d in (pair.C2S, pair.S2C))
         out['c_del'], out['s_del'] = list(c_sink), list(s_sink)
@@ -272,6 +298,10 @@ SCRIPT_CORPUS = [
     ['tc', 'sc:94:1', 'sc:94:2'] + ['dcs', 'dsc'] * 12,                  # F58: limit passes inside one send_packet call
     ['ts', 'ss:94:1', 'tc', 'sc:94:2', 'ss:94:3'] + ['dsc', 'dcs'] * 14,
     ['lc', 'tc', 'sc:94:1', 'sc:94:2'] + ['dcs', 'dsc'] * 12 + ['sc:94:3'] + ['dcs', 'dsc'] * 12,
+    # F145: the time limit is reached again while the exchange it started is still running
+    ['lc', 'sc:94:1', 'lc', 'sc:94:2'] + ['dcs', 'dsc'] * 14,
+    ['ls', 'ss:94:1', 'dsc', 'ls', 'lc', 'sc:94:2'] + ['dcs', 'dsc'] * 16,
+    ['lc', 'sc:94:1'] + ['lc', 'dcs', 'dsc'] * 14,          # an interval shorter than every exchange
 ]
 
 
@@ -418,6 +448,26 @@ def oracle_scripts(ctx: Ctx, res: OracleResult, hist: Hist) -> None:
                     res.failures.append(Failure('non-kex-message-between-own-kexinit-and-newkeys',
                                                 f'{role} wrote message type {t} between its KEXINIT and its NEWKEYS '
                                                 f'(types written: {types[:k + 2]}); script {o["events"]}', key))
+                    break
+        # once an exchange is complete what was held back goes out (newkeys_flush_sends_everything): channel data an
+        # endpoint was given before it wrote NEWKEYS is on the wire before it writes its next KEXINIT.  (Not stated
+        # for an endpoint whose clock passes the limit inside a send_packet call: that is `lateArmed`.)
+        for role, types, side, col in (('client', o['c_types'], 'c', 0), ('server', o['s_types'], 's', 1)):
+            if 't' + side in o['events']:
+                continue
+            given = [o['marks'][k][col] for k, e in enumerate(o['events'][:len(o['marks'])])
+                     if e.startswith(f's{side}:94:')]
+            for i21 in [i for i, t in enumerate(types) if t == 21]:
+                i20 = next((i for i in range(i21 + 1, len(types)) if types[i] == 20), None)
+                if i20 is None:
+                    continue
+                due = sum(1 for g in given if g <= i21)
+                if types[:i20].count(94) < due:
+                    res.failures.append(Failure('exchange-restarted-before-deferred-data-was-sent',
+                                                f'{role} had been given {due} channel data packets when it wrote NEWKEYS '
+                                                f'(packet {i21}) and had written {types[:i20].count(94)} of them when it '
+                                                f'wrote KEXINIT again (packet {i20}); types {types[:i20 + 1]}; '
+                                                f'script {o["events"]}', key))
                     break
         for role, got, want in (('server', o['s_del'], want_s), ('client', o['c_del'], want_c)):
             if got != want[:len(got)]:
